@@ -11,6 +11,7 @@ import (
 	"sort"
 	"strings"
 	"time"
+	"unsafe"
 )
 
 // C01 support: reflection-driven value generator and an independent XML walker.
@@ -806,6 +807,105 @@ func c01eachChoice(f func(ch map[string]int) []c01choice) {
 
 // ---------------------------------------------------------------------------
 // registry, read at run time
+//
+// The registry's contents are private and its layout is the library's business (a map per namespace
+// today, maybe one flat map tomorrow): it is read by a generic walk that does not name its fields. Every
+// reflect.Type found below TypeRegistry is reported with the packet type and the strings met on the way
+// down (map keys and fields of struct keys, in order): namespace, then local name. Each entry is then
+// confirmed through the public lookup, so a misreading cannot go unnoticed.
+
+type c01regEntry struct {
+	pt        PacketType
+	ns, local string
+	typ       reflect.Type
+}
+
+var c01tReflectType = reflect.TypeOf((*reflect.Type)(nil)).Elem()
+var c01tPacketType = reflect.TypeOf(PacketType(0))
+
+func c01walkRegistry() []c01regEntry {
+	var out []c01regEntry
+	var walk func(v reflect.Value, pts []PacketType, strs []string, depth int)
+	atoms := func(k reflect.Value, pts []PacketType, strs []string) ([]PacketType, []string) {
+		switch {
+		case k.Type() == c01tPacketType:
+			pts = append(append([]PacketType{}, pts...), PacketType(k.Uint()))
+		case k.Kind() == reflect.String:
+			strs = append(append([]string{}, strs...), k.String())
+		case k.Kind() == reflect.Struct:
+			for i := 0; i < k.NumField(); i++ {
+				pts, strs = atomsRec(k.Field(i), pts, strs)
+			}
+		}
+		return pts, strs
+	}
+	walk = func(v reflect.Value, pts []PacketType, strs []string, depth int) {
+		if depth > 8 || !v.IsValid() {
+			return
+		}
+		if v.Type().Implements(c01tReflectType) || v.Type() == c01tReflectType {
+			if v.Kind() == reflect.Interface && v.IsNil() {
+				return
+			}
+			if t, ok := v.Interface().(reflect.Type); ok && t != nil && len(pts) == 1 && len(strs) >= 2 {
+				out = append(out, c01regEntry{pts[0], strs[0], strs[1], t})
+			}
+			return
+		}
+		switch v.Kind() {
+		case reflect.Ptr, reflect.Interface:
+			if !v.IsNil() {
+				walk(v.Elem(), pts, strs, depth+1)
+			}
+		case reflect.Struct:
+			for i := 0; i < v.NumField(); i++ {
+				f := v.Field(i)
+				if f.CanAddr() {
+					f = reflect.NewAt(f.Type(), unsafe.Pointer(f.UnsafeAddr())).Elem()
+				}
+				switch f.Kind() {
+				case reflect.Map, reflect.Ptr, reflect.Interface, reflect.Struct, reflect.Slice:
+					walk(f, pts, strs, depth+1)
+				}
+			}
+		case reflect.Map:
+			it := v.MapRange()
+			for it.Next() {
+				p2, s2 := atoms(it.Key(), pts, strs)
+				walk(it.Value(), p2, s2, depth+1)
+			}
+		case reflect.Slice:
+			for i := 0; i < v.Len(); i++ {
+				walk(v.Index(i), pts, strs, depth+1)
+			}
+		}
+	}
+	root := reflect.ValueOf(TypeRegistry)
+	walk(root, nil, nil, 0)
+	for _, e := range out {
+		if got := TypeRegistry.GetExtensionType(e.pt, xml.Name{Space: e.ns, Local: e.local}); got != e.typ {
+			panic(fmt.Sprintf("harness: registry walk read (%v, %q, %q) -> %v, but the public lookup gives %v", e.pt, e.ns, e.local, e.typ, got))
+		}
+	}
+	if len(out) == 0 {
+		panic("harness: the registry walk found no registered extension")
+	}
+	return out
+}
+
+func atomsRec(k reflect.Value, pts []PacketType, strs []string) ([]PacketType, []string) {
+	switch {
+	case k.Type() == c01tPacketType:
+		pts = append(append([]PacketType{}, pts...), PacketType(k.Uint()))
+	case k.Kind() == reflect.String:
+		strs = append(append([]string{}, strs...), k.String())
+	case k.Kind() == reflect.Struct:
+		for i := 0; i < k.NumField(); i++ {
+			pts, strs = atomsRec(k.Field(i), pts, strs)
+		}
+	}
+	return pts, strs
+}
 
 type c01reg struct {
 	ns, local string
@@ -813,22 +913,19 @@ type c01reg struct {
 }
 
 func c01registered(pt PacketType) []c01reg {
-	TypeRegistry.msgTypesLock.RLock()
-	defer TypeRegistry.msgTypesLock.RUnlock()
 	var out []c01reg
-	for k, store := range TypeRegistry.msgTypes {
-		if k.packetType != pt {
+	for _, e := range c01walkRegistry() {
+		if e.pt != pt {
 			continue
 		}
-		for local, t := range store {
-			for t != nil && t.Kind() == reflect.Ptr {
-				t = t.Elem()
-			}
-			if t == nil || t.Kind() != reflect.Struct {
-				continue
-			}
-			out = append(out, c01reg{k.namespace, local, t})
+		t := e.typ
+		for t != nil && t.Kind() == reflect.Ptr {
+			t = t.Elem()
 		}
+		if t == nil || t.Kind() != reflect.Struct {
+			continue
+		}
+		out = append(out, c01reg{e.ns, e.local, t})
 	}
 	sort.Slice(out, func(i, j int) bool {
 		if out[i].typ.Name() != out[j].typ.Name() {
